@@ -539,6 +539,118 @@ def _(m):
                  "        f_coords = [tuple(c) if isinstance(c, list) else c for c in y_fiber['coords']]")
 
 
+# ------------------------------------------------------------------------------- round-5 oracles
+@mutant("c15_numiters_remembered_per_path", "C15")
+def _(m):
+    C = m["compute"].Compute
+    orig = C.__dict__["numIters"].__func__
+    memo = {}
+
+    def numIters(trace):
+        if trace not in memo:
+            memo[trace] = orig(trace)
+        return memo[trace]
+    C.numIters = staticmethod(numIters)
+
+
+@mutant("c15_add_not_counted_for_zero_left_operand", "C15")
+def _(m):
+    patch_method(m["Payload"], "__add__", "    if Metrics.isCollecting():\n        Metrics.incCount(\"Compute\", \"payload_add\", 1)",
+                 "    if Metrics.isCollecting() and self.value != 0:\n        Metrics.incCount(\"Compute\", \"payload_add\", 1)")
+
+
+@mutant("c15_numops_needs_compute_entry", "C15")
+def _(m):
+    patch_method(m["compute"].Compute, "numOps", "    if \"Compute\" in dump and metric in dump[\"Compute\"]:", "    if metric in dump[\"Compute\"]:")
+
+
+@mutant("c16_iterrange_start_offset_twice", "C16")
+def _(m):
+    it = m["iterators"]
+    patch_modfunc(it, "iterRange", "                    Metrics.addUse(rank, coord, i + j)", "                    Metrics.addUse(rank, coord, i + i + j)", also=(m["Fiber"],))
+
+
+@mutant("c16_getpayloadref_untraced_use_dropped", "C16")
+def _(m):
+    patch_method(m["Fiber"], "getPayloadRef", "    if Metrics.isCollecting():\n        Metrics.addUse(self.getRankAttrs().getId(), coords[0], index, type_=trace)",
+                 "    if Metrics.isCollecting() and trace is not None:\n        Metrics.addUse(self.getRankAttrs().getId(), coords[0], index, type_=trace)")
+
+
+@mutant("c16_project_position_counts_delivered_elements", "C16")
+def _(m):
+    patch_method(m["Fiber"], "project", "                        if pos is None:\n                            pos = i + j", "                        pos = i + j")
+
+
+@mutant("c16_project_interval_end_leaves_iteration_open", "C16")
+def _(m):
+    patch_method(m["Fiber"], "project", "                    if is_collecting and self.tck:\n                        Metrics.endIter(src_rank)", "                    pass")
+
+
+@mutant("c17_elem_of_uncompressed_rank_is_payload_only", "C17")
+def _(m):
+    F = m["traffic"].Format if hasattr(m["traffic"], "Format") else __import__("fibertree.model.format", fromlist=["Format"]).Format
+    patch_method(F, "getElem", "    elif type_ == \"elem\":\n        return self.spec[rank][\"cbits\"] + self.spec[rank][\"pbits\"]",
+                 "    elif type_ == \"elem\":\n        if self.spec[rank][\"format\"] == \"U\":\n            return self.spec[rank][\"pbits\"]\n        return self.spec[rank][\"cbits\"] + self.spec[rank][\"pbits\"]")
+
+
+@mutant("c02_format_rank_footprint_remembered_by_fiber_count", "C02")
+def _(m):
+    F = __import__("fibertree.model.format", fromlist=["Format"]).Format
+    orig = F.getRank
+
+    def getRank(self, rank_id):
+        memo = self.__dict__.setdefault("_rank_footprint", {})
+        i = self.tensor.getRankIds().index(rank_id)
+        n = len(self.tensor.ranks[i].getFibers())
+        if rank_id in memo and memo[rank_id][0] == n:
+            return memo[rank_id][1]
+        v = orig(self, rank_id)
+        memo[rank_id] = (n, v)
+        return v
+    F.getRank = getRank
+
+
+@mutant("c01_ilshift_appends_in_arrival_order", "C01")
+def _(m):
+    patch_method(m["Fiber"], "__ilshift__", "        ref = self.getPayloadRef(c)", "        ref = self._create_payload(c, pos=len(self.coords))")
+
+
+@mutant("c05_untouched_test_compares_with_zero", "C05")
+def _(m):
+    it = m["iterators"]
+    patch_modfunc(it, "__lshift__", "                        a_payload == self.a_fiber.getDefault()):", "                        a_payload == 0):", also=(m["Fiber"],))
+
+
+@mutant("c06_swizzle_remembered_for_immutable_tensors", "C06")
+def _(m):
+    import copy as _copy
+    T = m["Tensor"]
+    orig = T.swizzleRanks
+
+    def swizzleRanks(self, rank_ids):
+        memo = self.__dict__.setdefault("_swizzled", {})
+        key = tuple(rank_ids)
+        if not self.isMutable() and key in memo:
+            return _copy.deepcopy(memo[key])
+        r = orig(self, rank_ids)
+        if not self.isMutable():
+            memo[key] = _copy.deepcopy(r)
+        return r
+    T.swizzleRanks = swizzleRanks
+
+
+@mutant("c10_swizzle_remembered_for_immutable_tensors", "C10")
+def _(m):
+    MUTANTS["c06_swizzle_remembered_for_immutable_tensors"][1](m)
+
+
+@mutant("c10_colour_map_dropped_when_round_robin_wraps", "C10")
+def _(m):
+    IU = __import__("fibertree.graphics.image_utils", fromlist=["ImageUtils"]).ImageUtils
+    patch_method(IU, "getColor", "    ImageUtils.hl_next = (hl_next + 1) % len(hl_colors)",
+                 "    ImageUtils.hl_next = (hl_next + 1) % len(hl_colors)\n    if ImageUtils.hl_next == 0:\n        ImageUtils.hl_map = {}")
+
+
 def apply(name):
     if name not in MUTANTS:
         raise SystemExit(f"unknown mutant {name}; known: {sorted(MUTANTS)}")
